@@ -97,6 +97,7 @@ def main(argv=None):
     samples = []
     failures = []
     not_exhausted = []
+    early = []
     twins = []
     anchors = {}
     extra = {}
@@ -111,8 +112,12 @@ def main(argv=None):
         solver_s += r.get('solver_s', 0.0)
         if r.get('unsupported'):
             problems.append(f"job {r.get('job')}: unsupported {r['unsupported']}")
-        if not r.get('exhausted', False) and not r.get('stopped_on_failures'):
+        if isinstance(r.get('frontier'), list):
+            r['frontier'] = len(r['frontier'])
+        if not r.get('exhausted', False) and not r.get('stopped_on_failures') and not (r.get('job') or {}).get('region_job'):
             not_exhausted.append(r.get('job'))
+        if r.get('stopped_on_failures') and not (r.get('job') or {}).get('region_job'):
+            early.append(r)
         if 'twin_reached' in r:
             twins.append(bool(r['twin_reached']))
         for k, v in (r.get('anchors') or {}).items():
@@ -176,6 +181,11 @@ def main(argv=None):
             known_hits[k['id']] = known_hits.get(k['id'], 0) + 1
         else:
             new.append(f)
+
+    newjobs = set(json.dumps(f.get('job'), sort_keys=True, default=str) for f in new)
+    for r in early:
+        if json.dumps(r.get('job'), sort_keys=True, default=str) not in newjobs:
+            problems.append(f"job stopped early on listed findings only, rest unexplored: {r.get('job')}")
 
     # ---- report
     for line in known_lines:
